@@ -15,14 +15,24 @@ Property theorems only; helper lemmas are in `Proofs/Links.lean`.  All statement
 for every input: any number of atoms, residues, links, interactions.
 
 Reading guide: `evs inp` is the list of ACCEPTED link applications (link + atom correspondence) in the
-order the double loop visits them; `C02_accepted_iff` says which applications are accepted;
-`C02_iff` / `C02_edges_iff` / `C02_attrs_last` say that the interactions / edges / atom attributes of
-the result are exactly what the block and the accepted applications define, later ones winning.
+order the double loop visits them; `C02_matches_iff` / `C02_cands_iff` / `C02_accepted_iff` say which
+applications are accepted (sound and complete: the enumeration standing for VF2 returns exactly the
+injective, residue-name- and linktype-respecting induced-subgraph matches); `C02_iff` /
+`C02_present_iff` / `C02_edges_iff` / `C02_attrs_last` / `C02_atoms_keys` say that the interactions /
+edges / atom attributes / atoms of the result are exactly what the blocks and the accepted applications
+define, later ones winning (`C02_fold_insert_last`); `C02_matchOrder_table` gives the meaning of the
+order tokens for all integers; `C02_dangling_equiv`, `C02_versions_distinct` and
+`C02_dangling_windows_partial` cover the dangling interactions of monomer .itp files.
 
-The enumeration order of the matches of ONE link is the order of `Links.resMatches` (the real code uses
-the order of networkx' VF2); `C02_iff` is therefore exact for "the link defined last wins" and partial
-for the order among matches of the same link (the check only compares cases where that order cannot
-be observed, `Links.sameLinkCollisions = 0`, and counts the others).
+Partial / not covered:
+* The enumeration order of the matches of ONE link is that of `Links.resMatches`; the real code uses the
+  order of networkx' VF2.  `C02_iff` is exact for "the link defined last wins" and leaves the order among
+  matches of the same link as the model's (the check compares only cases in which that order cannot be
+  observed, `Links.sameLinkCollisions = 0`, and counts the others).
+* The candidate list contains the code's residue-name pre-filter (`Links.prefilter`): a link none of whose
+  atoms names a residue is never a candidate (known finding `link-without-resname-skipped`; the oracle's
+  `Links.specCands` has no such filter).
+* `C02_dangling_windows_partial`: general for the order check, bounded kernel test for the whole pipeline.
 -/
 import PolyplyVerif.Model.Links
 import PolyplyVerif.Proofs.Links
